@@ -1,0 +1,309 @@
+// Verification hooks (deterministic simulation); compiled only with `--cfg maidsafe_safe_network_verif`.
+//
+// The shipped crate never contains this module. Nothing here changes behaviour unless a harness has
+// installed a `Controller` on the *current thread* (see `run_writer`): `gate()` is then a blocking park
+// point between the steps of `BootstrapCacheStore::sync_and_flush_to_disk` / `write`, so that several
+// "processes" (one real store per OS thread, all flushing to one cache file) can be interleaved one
+// step at a time by a simulator. Controllers are per simulated run (an `Arc` handed to the threads of
+// that run), never process-global, so many runs can execute in parallel inside one OS process.
+
+use std::cell::{Cell, RefCell};
+use std::panic::{catch_unwind, resume_unwind, AssertUnwindSafe};
+use std::sync::{Arc, Condvar, Mutex, MutexGuard};
+use std::time::{Duration, Instant};
+
+pub use crate::cache_store::CacheData;
+
+/// Read-only view of the in-memory cache of a store (the field is crate-private).
+pub fn store_data(store: &crate::BootstrapCacheStore) -> &CacheData {
+    &store.data
+}
+
+#[derive(Clone, Copy, Debug, PartialEq, Eq)]
+enum Phase {
+    Running,
+    Parked,
+    Finished,
+}
+
+#[derive(Clone, Copy, Debug, PartialEq, Eq)]
+enum Order {
+    None,
+    Go,
+    Abandon,
+}
+
+struct Slot {
+    label: u64,
+    phase: Phase,
+    site: &'static str,
+    order: Order,
+    seq: u64,
+    /// longest clock-sensitive window (see `trim_timer`) inside the writer's last completed segment
+    trim_window: Duration,
+}
+
+#[derive(Default)]
+struct Inner {
+    slots: Vec<Slot>,
+    next_seq: u64,
+}
+
+/// A writer thread that is parked at a gate and waits for the simulator.
+#[derive(Clone, Debug, PartialEq, Eq)]
+pub struct ParkedWriter {
+    pub label: u64,
+    pub site: &'static str,
+}
+
+/// How a writer thread ended (see `run_writer`).
+pub enum WriterEnd<T> {
+    /// the closure returned
+    Done(T),
+    /// the simulator abandoned the writer while it was parked at this gate: the remaining steps never ran
+    Abandoned(&'static str),
+    /// the code under test panicked
+    Panicked(String),
+}
+
+/// Private unwind payload of an abandoned writer.
+struct AbandonedAt(&'static str);
+
+/// One per simulated run; shared between the simulator thread and the writer threads of that run.
+pub struct Controller {
+    inner: Mutex<Inner>,
+    cv: Condvar,
+}
+
+thread_local! {
+    static CURRENT: RefCell<Option<(Arc<Controller>, u64)>> = const { RefCell::new(None) };
+    static MEASURE: Cell<bool> = const { Cell::new(false) };
+    static TRIM_WINDOW: Cell<Duration> = const { Cell::new(Duration::ZERO) };
+}
+
+/// `CacheData::try_remove_oldest_peers` ranks peers by `last_seen.elapsed()`, evaluated for one address
+/// after the other: the wall clock advances between two evaluations, so a thread preempted inside
+/// that loop for longer than the distance of two stamps ranks them the other way round. A simulator
+/// cannot prevent that, but it can recognise it: this guard measures how long the ranking took.
+pub struct TrimTimer(Option<Instant>);
+
+/// Start measuring a clock-sensitive window on this thread (no-op unless `measure_trim_windows(true)`).
+pub fn trim_timer() -> TrimTimer {
+    TrimTimer(if MEASURE.with(|m| m.get()) {
+        Some(Instant::now())
+    } else {
+        None
+    })
+}
+
+impl Drop for TrimTimer {
+    fn drop(&mut self) {
+        if let Some(t) = self.0 {
+            let d = t.elapsed();
+            TRIM_WINDOW.with(|w| w.set(w.get().max(d)));
+        }
+    }
+}
+
+/// Switch the measurement on or off for the current thread (`run_writer` switches it on).
+pub fn measure_trim_windows(on: bool) {
+    MEASURE.with(|m| m.set(on));
+}
+
+/// The longest clock-sensitive window on this thread since the previous call.
+pub fn take_trim_window() -> Duration {
+    TRIM_WINDOW.with(|w| w.replace(Duration::ZERO))
+}
+
+impl Controller {
+    pub fn new() -> Arc<Self> {
+        Arc::new(Controller {
+            inner: Mutex::new(Inner::default()),
+            cv: Condvar::new(),
+        })
+    }
+
+    fn lock(&self) -> MutexGuard<'_, Inner> {
+        self.inner.lock().unwrap_or_else(|e| e.into_inner())
+    }
+
+    /// Announce a writer before its thread is spawned: it counts as running until it parks or finishes.
+    pub fn register(&self, label: u64) {
+        let mut g = self.lock();
+        if !g.slots.iter().any(|s| s.label == label) {
+            g.slots.push(Slot {
+                label,
+                phase: Phase::Running,
+                site: "",
+                order: Order::None,
+                seq: 0,
+                trim_window: Duration::ZERO,
+            });
+        }
+    }
+
+    /// Block until no registered writer is running (each is parked at a gate or has finished).
+    /// `max` is a safety net for the harness only (returns false on expiry); it never decides an outcome.
+    pub fn wait_quiet(&self, max: Duration) -> bool {
+        let deadline = Instant::now() + max;
+        let mut g = self.lock();
+        loop {
+            if !g.slots.iter().any(|s| s.phase == Phase::Running) {
+                return true;
+            }
+            let now = Instant::now();
+            if now >= deadline {
+                return false;
+            }
+            let (ng, _) = self
+                .cv
+                .wait_timeout(g, deadline - now)
+                .unwrap_or_else(|e| e.into_inner());
+            g = ng;
+        }
+    }
+
+    /// Writers currently parked at a gate, in the order in which they parked.
+    pub fn parked(&self) -> Vec<ParkedWriter> {
+        let g = self.lock();
+        let mut v: Vec<&Slot> = g.slots.iter().filter(|s| s.phase == Phase::Parked).collect();
+        v.sort_by_key(|s| s.seq);
+        v.into_iter()
+            .map(|s| ParkedWriter {
+                label: s.label,
+                site: s.site,
+            })
+            .collect()
+    }
+
+    pub fn is_finished(&self, label: u64) -> bool {
+        let g = self.lock();
+        g.slots
+            .iter()
+            .any(|s| s.label == label && s.phase == Phase::Finished)
+    }
+
+    fn order(&self, label: u64, order: Order) -> bool {
+        let mut g = self.lock();
+        let Some(s) = g
+            .slots
+            .iter_mut()
+            .find(|s| s.label == label && s.phase == Phase::Parked)
+        else {
+            return false;
+        };
+        s.phase = Phase::Running;
+        s.order = order;
+        drop(g);
+        self.cv.notify_all();
+        true
+    }
+
+    /// Let a parked writer run until its next gate or until it finishes. Follow with `wait_quiet`.
+    pub fn release(&self, label: u64) -> bool {
+        self.order(label, Order::Go)
+    }
+
+    /// Crash a parked writer: its thread unwinds out of the code under test without executing the
+    /// remaining steps (`run_writer` reports `WriterEnd::Abandoned`). Follow with `wait_quiet`.
+    pub fn abandon(&self, label: u64) -> bool {
+        self.order(label, Order::Abandon)
+    }
+
+    /// The longest clock-sensitive window (see `trim_timer`) inside the writer's last completed segment
+    /// (between two gates, or from the start / to the end), measured on the writer thread.
+    pub fn last_trim_window(&self, label: u64) -> Option<Duration> {
+        let g = self.lock();
+        g.slots
+            .iter()
+            .find(|s| s.label == label)
+            .map(|s| s.trim_window)
+    }
+
+    /// Forget a finished writer.
+    pub fn forget(&self, label: u64) {
+        let mut g = self.lock();
+        g.slots
+            .retain(|s| !(s.label == label && s.phase == Phase::Finished));
+    }
+
+    fn finish(&self, label: u64, trim_window: Duration) {
+        let mut g = self.lock();
+        if let Some(s) = g.slots.iter_mut().find(|s| s.label == label) {
+            s.trim_window = trim_window;
+            s.phase = Phase::Finished;
+            s.order = Order::None;
+        }
+        drop(g);
+        self.cv.notify_all();
+    }
+}
+
+/// Run `f` (the work of one writer "process") on the current thread under `ctrl`: gates reached inside
+/// `f` park this thread until the simulator releases or abandons it.
+pub fn run_writer<T>(ctrl: &Arc<Controller>, label: u64, f: impl FnOnce() -> T) -> WriterEnd<T> {
+    ctrl.register(label);
+    CURRENT.with(|c| *c.borrow_mut() = Some((Arc::clone(ctrl), label)));
+    measure_trim_windows(true);
+    let _ = take_trim_window();
+    let r = catch_unwind(AssertUnwindSafe(f));
+    let trim_window = take_trim_window();
+    measure_trim_windows(false);
+    CURRENT.with(|c| *c.borrow_mut() = None);
+    let end = match r {
+        Ok(v) => WriterEnd::Done(v),
+        Err(payload) => match payload.downcast::<AbandonedAt>() {
+            Ok(a) => WriterEnd::Abandoned(a.0),
+            Err(payload) => WriterEnd::Panicked(
+                payload
+                    .downcast_ref::<String>()
+                    .cloned()
+                    .or_else(|| payload.downcast_ref::<&str>().map(|s| s.to_string()))
+                    .unwrap_or_else(|| "panic".to_string()),
+            ),
+        },
+    };
+    ctrl.finish(label, trim_window);
+    end
+}
+
+/// Park point between two steps of a flush. No-op unless the current thread runs under `run_writer`.
+pub fn gate(site: &'static str) {
+    let Some((ctrl, label)) = CURRENT.with(|c| c.borrow().clone()) else {
+        return;
+    };
+    let trim_window = take_trim_window();
+    let mut g = ctrl.lock();
+    let seq = g.next_seq;
+    g.next_seq += 1;
+    match g.slots.iter_mut().find(|s| s.label == label) {
+        Some(s) => {
+            s.trim_window = trim_window;
+            s.phase = Phase::Parked;
+            s.site = site;
+            s.order = Order::None;
+            s.seq = seq;
+        }
+        None => return,
+    }
+    ctrl.cv.notify_all();
+    loop {
+        g = ctrl.cv.wait(g).unwrap_or_else(|e| e.into_inner());
+        let Some(s) = g.slots.iter_mut().find(|s| s.label == label) else {
+            return;
+        };
+        match s.order {
+            Order::None => continue,
+            Order::Go => {
+                s.order = Order::None;
+                return;
+            }
+            Order::Abandon => {
+                s.order = Order::None;
+                drop(g);
+                // does not invoke the panic hook; swallowed by `run_writer`
+                resume_unwind(Box::new(AbandonedAt(site)));
+            }
+        }
+    }
+}
